@@ -68,6 +68,29 @@ def main():
         out.append(f"| {name} | {prop} | {brief} | {'caught' if ok else 'quiet'} `{sig}` | {', '.join(others) or '-'} |")
     out.append(f"\n{c} of {n} seeded changes are caught by the quick check of the property they were written against.\n")
 
+    out.append("#### Behaviour-preserving refactorings written by sub-agents (refactors/<name>/): every quick check must stay quiet\n")
+    out.append("| refactoring | written against | what it rewrites (author's notes) | repo suite | checks that raised an alarm |")
+    out.append("|---|---|---|---|---|")
+    rd = os.path.join(HERE, "refactors")
+    rn = rq = 0
+    for name in sorted(os.listdir(rd)) if os.path.isdir(rd) else []:
+        meta = load(f"refactors/{name}/meta.json", None)
+        if not meta:
+            continue
+        rn += 1
+        res = meta.get("results", {})
+        alarms = sorted(k.split("/")[0] for k, v in res.items() if v.get("rc") != 0)
+        rq += not alarms
+        try:
+            notes = open(os.path.join(rd, name, "notes.md")).read()
+        except Exception:
+            notes = ""
+        brief = " ".join(ln.strip("# ").strip() for ln in notes.splitlines()[:30] if ln.strip())[:240].replace("|", "/")
+        suite = meta.get("existing_suite_with_change", {})
+        out.append(f"| {name} | {meta['property']} | {brief} | {suite.get('passed')} pass, {len(suite.get('stable_pass_missing', []))} missing | "
+                   f"{', '.join(alarms) or 'none (' + str(len(res)) + ' checks quiet)'} |")
+    out.append(f"\n{rq} of {rn} refactorings leave all checks quiet.\n")
+
     text = "\n".join(out)
     p = os.path.join(HERE, "DESIGN.md")
     s = open(p).read()
